@@ -191,6 +191,70 @@ type bcase struct {
 	equal  func(a, b interface{}) (bool, string)
 	lens   []int
 	class  string // signature component
+	setup  func() // process-global switch the codec depends on (DPoS message payload version)
+}
+
+// deepCopy clones a value: structs are copied whole (unexported fields shallow), exported
+// pointers, slices and interfaces recursively.
+func deepCopy(v reflect.Value) reflect.Value {
+	switch v.Kind() {
+	case reflect.Ptr:
+		if v.IsNil() {
+			return v
+		}
+		n := reflect.New(v.Type().Elem())
+		n.Elem().Set(deepCopy(v.Elem()))
+		return n
+	case reflect.Interface:
+		if v.IsNil() {
+			return v
+		}
+		n := reflect.New(v.Type()).Elem()
+		n.Set(deepCopy(v.Elem()))
+		return n
+	case reflect.Struct:
+		n := reflect.New(v.Type()).Elem()
+		n.Set(v)
+		for i := 0; i < v.NumField(); i++ {
+			if v.Type().Field(i).PkgPath != "" {
+				continue
+			}
+			switch v.Field(i).Kind() {
+			case reflect.Ptr, reflect.Slice, reflect.Interface, reflect.Struct:
+				n.Field(i).Set(deepCopy(v.Field(i)))
+			}
+		}
+		return n
+	case reflect.Slice:
+		if v.IsNil() {
+			return v
+		}
+		n := reflect.MakeSlice(v.Type(), v.Len(), v.Len())
+		switch v.Type().Elem().Kind() {
+		case reflect.Ptr, reflect.Slice, reflect.Interface, reflect.Struct:
+			for i := 0; i < v.Len(); i++ {
+				n.Index(i).Set(deepCopy(v.Index(i)))
+			}
+		default:
+			reflect.Copy(n, v)
+		}
+		return n
+	}
+	return v
+}
+
+// cached replaces the builder by clones of one prototype (builders are deterministic and some
+// are expensive).
+func cached(bc bcase) bcase {
+	orig := bc.build
+	proto := reflect.ValueOf(orig())
+	bc.build = func() interface{} {
+		if bc.setup != nil {
+			bc.setup()
+		}
+		return deepCopy(proto).Interface()
+	}
+	return bc
 }
 
 // safeGet follows a leaf path; a path through an element the value does not have yields the zero
@@ -256,6 +320,7 @@ func attempt(bc bcase, lf leaf, n int) (status, detail string) {
 }
 
 func (c *ctx) runBoundary(bc bcase) {
+	bc = cached(bc)
 	r := c.r
 	root := reflect.ValueOf(bc.build())
 	var leaves []leaf
@@ -332,7 +397,13 @@ func (c *ctx) boundaryCases() (out []bcase, seq []bcase) {
 					Outputs: []common2.OutputType{common2.OTNone}, Programs: 1}, mk())
 				return &txParts{Payload: tx.Payload(), Attributes: tx.Attributes(), Inputs: tx.Inputs(), Outputs: tx.Outputs(), Programs: tx.Programs()}
 			}
-			bc := bcase{name: fmt.Sprintf("tx/%s/%s", t.Name(), label), class: "tx/" + t.Name(), lens: boundaryLens}
+			// the three-byte/five-byte lengths once per transaction type (first variant); the other
+			// variants of the same payload struct get the one-byte/three-byte boundary only
+			lens := boundaryLens
+			if vi > 0 {
+				lens = short
+			}
+			bc := bcase{name: fmt.Sprintf("tx/%s/%s", t.Name(), label), class: "tx/" + t.Name(), lens: lens}
 			bc.build = func() interface{} {
 				parts := build().(*txParts)
 				parts.Attributes, parts.Inputs, parts.Outputs, parts.Programs = nil, nil, nil, nil // payload only here
@@ -457,7 +528,7 @@ func (c *ctx) boundaryCases() (out []bcase, seq []bcase) {
 				idx = i
 			}
 		}
-		bc := bcase{name: sp.Name, class: sp.Name, lens: boundaryLens, build: func() interface{} {
+		bc := bcase{name: sp.Name, class: sp.Name, lens: boundaryLens, setup: sp.Setup, build: func() interface{} {
 			if sp.Setup != nil {
 				sp.Setup()
 			}
